@@ -16,8 +16,8 @@ from props import e2e
 
 ID = 'C03'
 HARNESS = 'solve'
-COQ_IMPORTS = 'From VRP Require Model.Routing. From VRP Require Import Base.Tac Model.Core Spec.Valid Spec.ValidTD Model.Writer.'
-MODEL_TARGETS = ['theories/Spec/Valid.vo', 'theories/Spec/ValidTD.vo', 'theories/Model/Writer.vo']
+COQ_IMPORTS = 'From VRP Require Model.Routing. From VRP Require Import Base.Tac Model.Core Spec.Valid Spec.ValidTD Spec.ValidX Model.Writer.'
+MODEL_TARGETS = ['theories/Spec/Valid.vo', 'theories/Spec/ValidTD.vo', 'theories/Spec/ValidX.vo', 'theories/Model/Writer.vo']
 MODEL_NEEDS_IMPL = True
 SHARD = 24
 SIZES = {'quick': 900, 'thorough': 6000, 'search': 1500}
@@ -37,7 +37,7 @@ ASSUMPTIONS = ['integer-valued matrices, durations, times and prices: every f64 
 
 
 def generate(rng, tier, n):
-    return e2e.gen_cases(rng, n, per_problem=3, allow=('tdm',))
+    return e2e.gen_cases(rng, n, per_problem=3, allow=e2e.ALLOW_E2E)
 
 
 def _sol(impl):
@@ -51,9 +51,10 @@ def model_term(c, impl):
     ids = e2e.Ids(c)
     # R = None: the classic fragment (replay_viol_x None = Valid.replay_viol); otherwise the departure-dependent replay of
     # Spec/ValidTD.v over the C16 provider model (several profiles, scale, time-dependent matrices)
+    # problems with round-four features (required breaks ...): ValidX.replay4, the same replay around the reserved times
     return ('(let R := %s in let P := %s in let S := %s in '
-            '(precond_viol P ++ replay_viol_x R P S ++ xreplay_viols P S, run_writer_enc P S))') % (
-        e2e.g_routing(c, ids), e2e.g_problem(c, ids), e2e.g_solution(c, s, ids))
+            '(precond_viol P ++ %s, run_writer_enc P S))') % (
+        e2e.g_routing(c, ids), e2e.g_problem(c, ids), e2e.g_solution(c, s, ids), e2e.term_R(c, s, ids))
 
 
 # ---- the real document in the encoding of Writer.enc_tour
@@ -99,6 +100,11 @@ def compare(c, impl, model):
     for k, (mt, dt) in enumerate(zip(tours, s['tours'])):
         if not mt:
             continue                      # the tour cannot be rebuilt: reported by the oracle (RNoReplay)
+        if e2e.tour_required_breaks(c, dt):
+            # a shift with REQUIRED breaks: the reserved time stretches legs and activities (and may be taken without being
+            # reported, findings C03-F5 / C01-F6): covered by the independent replay around the reserved times (ValidX.replay4) only
+            skipped = True
+            continue
         if any(a.get('type') in ('reload', 'break') for st in dt['stops'] for a in st['activities']):
             # Model/Writer.v has no reload intervals (loads are reset at a reload): such tours are covered by the independent
             # replay (oracle_model: replay_viol with Spec/Intervals.v loads) only, not by the writer-model correspondence
@@ -137,7 +143,11 @@ def _flat(tour):
 def _tag_class(c, s, k, i):
     """structural class of a tag violation at activity i (flattened index, 0 = departure) of tour k"""
     try:
-        a, stop = _flat(s['tours'][k])[i]
+        flat = _flat(s['tours'][k])
+        if e2e.tour_required_breaks(c, s['tours'][k]):
+            # the checker's indices refer to the tour WITHOUT its required-break activities / transit stops (ValidX.strip_tour)
+            flat = [x for x in flat if x[0].get('type') != 'break']
+        a, stop = flat[i]
         if a.get('type') == 'break' and a.get('jobTag') is None:
             # finding C03-F3: create_tour resolves the offset interval of a break against `start.schedule.departure`, and inside a
             # reload interval `start` is the RELOAD activity, not the tour start: behind a reload the interval is shifted by the
@@ -162,6 +172,54 @@ def _tag_class(c, s, k, i):
         return 'tag-mismatch', 'tag violation at tour %d activity %d (%r)' % (k, i, e)
 
 
+def _rb_class(c, s, t, cls, what):
+    """structural classes of the required-break findings (tour index = t[1] for every per-tour constructor)"""
+    name = t[0]
+    if name == 'RTotal' or len(t) < 2 or not isinstance(t[1], int) or not 0 <= t[1] < len(s['tours']):
+        return cls, what
+    tour = s['tours'][t[1]]
+    if not e2e.tour_required_breaks(c, tour):
+        return cls, what
+    if e2e.rb_unreported_time(c, tour) > 0:
+        # finding C03-F5 (= C01-F6): the writer moved a required break in front of a drive (TransitBreakMoved), counted it in
+        # times.break and delayed the departure, but wrote no break activity: nothing around it can be replayed
+        return ('schedule-around-required-break-counted-in-statistic-but-not-reported',
+                what + ': the tour statistic counts %d s of break that no reported break activity covers' % e2e.rb_unreported_time(c, tour))
+    if e2e.rb_missing_class(c, tour) == 'required-break-inside-last-activity-of-open-tour-not-reported':
+        # finding C03-F8 (= C01-F7): on an open-end tour a required break that falls into the last activity is not written (and
+        # not counted), although it stretches that activity: its end / the stop's departure / duration / cost cannot be replayed
+        return ('schedule-around-required-break-inside-last-activity-of-open-tour-not-reported',
+                what + ': open-end tour; a required break due at %s lies inside its last activity and is not reported' % (
+                    e2e.rb_missing_breaks(c, tour),))
+    if e2e.rb_two_on_one_span(c, tour):
+        # finding C03-F6 (= C01-F9): only ONE reserved time is applied per leg / activity; with two required breaks inside one
+        # leg or stop the second one does not stretch it
+        return ('schedule-with-two-required-breaks-inside-one-leg-or-stop',
+                what + ': two required breaks fall into the span %s of the tour; the solver reserves only the first' % (e2e.rb_two_on_one_span(c, tour),))
+    ov = e2e.rb_waiting_overlap(c, tour)
+    ex = e2e.rb_driving_excess(c, tour)
+    if ov + ex > 0 and name in ('RStatWaiting', 'RStatCost', 'RStatDriving'):
+        vt = e2e.vehicle_type_of(c, tour)
+        st = tour['statistic']
+        gross = e2e.gross_waiting(tour)
+        ct, cd = int(vt['costs']['time']), int(vt['costs']['distance'])
+        plain = int(vt['costs'].get('fixed') or 0) + st['distance'] * cd + st['duration'] * ct
+        if name == 'RStatDriving' and ex > 0:
+            # second shape of finding C03-F4: the break is charged as travel time of a zero-length leg AND as break
+            return ('cost-and-driving-count-required-break-at-zero-length-leg-twice',
+                    what + ': reported driving %d = matrix durations of the legs + %d s of a required break reported inside a stop' % (
+                        st['times']['driving'], ex))
+        if name == 'RStatCost' and ex > 0 and int(st['cost']) == plain + (ov + ex) * ct:
+            return ('cost-and-driving-count-required-break-at-zero-length-leg-twice',
+                    what + ': reported cost %s = fixed + distance*cd + duration*ct + %d*ct' % (st['cost'], ov + ex))
+        if (name == 'RStatWaiting' and st['times']['waiting'] == gross) or (name == 'RStatCost' and int(st['cost']) == plain + ov * ct):
+            # finding C03-F4
+            return ('cost-and-waiting-count-required-break-taken-while-waiting-twice',
+                    what + ': %d s of a required break lie inside waiting time; reported waiting %d = arrival-to-start sum, '
+                    'reported cost %s = fixed + distance*cd + duration*ct + %d*ct' % (ov, st['times']['waiting'], st['cost'], ov))
+    return cls, what
+
+
 def oracle(c, impl):
     if e2e.outcome(impl) == 'panic':
         msg = str((impl or {}).get('panic'))
@@ -175,7 +233,20 @@ def oracle(c, impl):
     v = []
     # get_total_cost of the core solution vs the reported total
     if impl.get('core_cost') is not None and impl['core_cost'] != int(s['statistic']['cost']):
-        v.append({'class': 'core-cost-differs-from-reported-cost',
+        cls = 'core-cost-differs-from-reported-cost'
+        rbt = [t for t in s['tours'] if e2e.tour_required_breaks(c, t)]
+        extra = [(e2e.rb_waiting_overlap(c, t) + e2e.rb_driving_excess(c, t)) * int(e2e.vehicle_type_of(c, t)['costs']['time'])
+                 for t in s['tours'] if e2e.tour_required_breaks(c, t) and e2e.vehicle_type_of(c, t)]
+        if any(e2e.rb_unreported_time(c, t) > 0 for t in rbt):
+            cls = 'schedule-around-required-break-counted-in-statistic-but-not-reported'              # C03-F5
+        elif any(e2e.rb_missing_class(c, t) == 'required-break-inside-last-activity-of-open-tour-not-reported' for t in rbt):
+            cls = 'schedule-around-required-break-inside-last-activity-of-open-tour-not-reported'     # C03-F8
+        elif any(e2e.rb_two_on_one_span(c, t) for t in rbt):
+            cls = 'schedule-with-two-required-breaks-inside-one-leg-or-stop'                          # C03-F6
+        elif extra and isinstance(impl['core_cost'], int) and int(s['statistic']['cost']) - impl['core_cost'] == sum(extra) > 0:
+            # finding C03-F4: a required break taken while the vehicle waits is charged as waiting AND as break
+            cls = 'cost-and-waiting-count-required-break-taken-while-waiting-twice'
+        v.append({'class': cls,
                   'what': 'Solution.cost %s, reported statistic.cost %s' % (impl['core_cost'], s['statistic']['cost'])})
     return v
 
@@ -195,6 +266,7 @@ def oracle_model(c, impl, model):
             cls, what = _tag_class(c, s, t[1], t[2])
         else:
             cls, what = CLASS.get(name, name), '%s %s' % (name, list(t[1:]))
+            cls, what = _rb_class(c, s, t, cls, what)
         out.append({'class': cls, 'what': what})
     return out
 
@@ -241,6 +313,7 @@ def classify(c, impl):
             labs.append('open-end-tour')
         if any(len(st['activities']) > 1 for t in s['tours'] for st in t['stops'][:1]):
             labs.append('job-at-start-location')
+    labs += e2e.feature4_labels(c, s)
     if e2e.outcome(impl) == 'panic':
         labs.append('panic=' + e2e.panic_class(c, str((impl or {}).get('panic'))))
     return labs
